@@ -23,6 +23,7 @@ RULE = ("passwords from a generator biased to blanks (inside, leading), non-ASCI
         "that differ only in the password (same length) produce identical log streams.  distinct = distinct (password class, "
         "scenario) pairs; non-trivial = the password contains a non-alphanumeric character or is shorter than 3.")
 RULE += ("  " + "Also: passwords with blanks at the ends and with latin-1 letters; connection limits reached; back-end failure, unknown verb, undecodable bytes after login; reset right after PASS; user managers whose authenticate times out or fails; shutdown with a password session connected; the client's socket_timeout expiring inside PASS; a PASS line in a foreign encoding; tracebacks of records are searched too.")
+RULE += ("  " + 'Also: the whole login and further commands in one burst with a suspending user manager; the connection ending inside the PASS line.')
 ASSUMPTIONS = ["passwords with CR/LF are not carriable by the line protocol and are excluded; blanks at the ends are sent (the server "
                "strips them, so such logins are rejected) and searched for without them",
                "all loggers propagate to the root logger (true for aioftp.client / aioftp.server)"]
